@@ -734,7 +734,12 @@ class DoIPConnection:
         payload = AliveCheckResponse(
             SourceAddress=self.src_addr,
         )
-        await self.write_request_raw(hdr, payload)
+        # This is called from the read worker. It must not wait for self._mutex,
+        # which is held by readers and by writers waiting for their ACK;
+        # both depend on the read worker to make progress.
+        self.writer.write(hdr.pack() + payload.pack())
+        await self.writer.drain()
+        logger.trace("Sent DoIP message: hdr: %s, payload: %s", hdr, payload)
 
     async def close(self) -> None:
         logger.debug("Closing DoIP connection...")
